@@ -16,6 +16,9 @@ import PyModeS.Generated.Src.py_common
 import PyModeS.Proofs.CRC.HexStr
 import PyModeS.Model.Commb
 
+-- symbolic execution of long generated `do` blocks: generous but finite budget (proof times are seconds)
+set_option maxHeartbeats 1000000
+
 set_option linter.style.nameCheck false
 set_option linter.unusedSimpArgs false
 namespace PyModeS.Tie
